@@ -1407,7 +1407,7 @@ Proof.
   intros OK. unfold rd.
   pose proof (le_dec_bound (sub off (Z.of_nat w) b) (bytes_ok_sub _ _ _ OK)) as [H1 H2].
   split; auto. eapply Z.lt_le_trans; eauto.
-  apply Z.pow_le_mono_r; try lia. split; [apply zlen_nonneg|].
+  apply Z.pow_le_mono_r; try lia.
   unfold sub, zfirstn. pose proof (zlen_firstn_le (Z.to_nat (Z.of_nat w)) (zskipn off b)). lia.
 Qed.
 
@@ -1453,7 +1453,7 @@ Proof.
     change (Z.of_nat 2) with 2. unfold sub. change (zskipn 0 b) with b.
     pose proof (window_glue b 0 2 2 ltac:(lia) ltac:(lia) ltac:(lia)) as G.
     change (zskipn 0 b) with b in G. simpl Z.add in G.
-    rewrite app_assoc. rewrite G.
+    rewrite G.
     pose proof (window_glue b 0 4 (4 * Z.of_nat n) ltac:(lia) ltac:(lia) ltac:(lia)) as G2.
     change (zskipn 0 b) with b in G2. simpl Z.add in G2. rewrite G2.
     f_equal. lia.
